@@ -225,7 +225,7 @@ theorem impl_eq_single (s : Sock) (payload : Bytes) :
 theorem hsRequest_eq : hsRequest = handshakeRequest := by decide
 
 theorem dataRequest_eq (c : Int) : requestBytes 0 (challengeOf c) (some DEFAULT_PAYLOAD) = dataRequest c :=
-  (exchange_spec.C09_request_bytes c).2
+  (exchange_wire.C09_request_bytes c).2
 
 /-- what the receiving stage does on a silence and on a datagram of the wrong kind -/
 structure TailOk (s : Sock) (tail : Q (List Bytes)) : Prop where
